@@ -73,10 +73,12 @@ class Defs:
         return None
 
 
-def expand(expr, defs, depth=6, keep=()):
-    """replace names that have exactly one definition by their defining expression (recursively)"""
+def expand(expr, defs, depth=6, keep=(), comps=False):
+    """replace names that have exactly one definition by their defining expression (recursively);
+    comprehension-valued definitions are only inlined with comps=True"""
     if expr is None:
         return None
+    skip = () if comps else (ast.Lambda, ast.ListComp, ast.DictComp, ast.GeneratorExp, ast.SetComp)
 
     class Sub(ast.NodeTransformer):
         def __init__(self, d):
@@ -85,7 +87,7 @@ def expand(expr, defs, depth=6, keep=()):
         def visit_Name(self, node):
             if isinstance(node.ctx, ast.Load) and node.id not in keep and self.d > 0:
                 v = defs.single(node.id)
-                if v is not None and not isinstance(v, (ast.Lambda, ast.ListComp, ast.DictComp, ast.GeneratorExp, ast.SetComp)):
+                if v is not None and not (skip and isinstance(v, skip)):
                     return Sub(self.d - 1).visit(clone(v))
             return node
     return Sub(depth).visit(clone(expr))
@@ -175,6 +177,66 @@ class Beta(ast.NodeTransformer):
             op = {'add': ast.Add, 'mul': ast.Mult, 'sub': ast.Sub, 'truediv': ast.Div}[f.attr]()
             return ast.copy_location(ast.BinOp(left=node.args[0], op=op, right=node.args[1]), node)
         return node
+
+
+_tables_cache = {}
+
+
+def class_tables(repo, module, clsname):
+    """attributes of a class that are precomputed lookup tables: `self.T = {}` and ONE store site `self.T[K] = V` (K a name or a
+    tuple of loop variables) in the same method, where V depends only on the variables of K and on `self`; no other mutation of
+    self.T anywhere in the class.  -> {T: (key variable names, value expression with loop-body locals expanded, defining method)}"""
+    ck = (id(repo), module.rel, clsname)
+    if ck in _tables_cache:
+        return _tables_cache[ck]
+    out = {}
+    methods = {q: fi for q, fi in module.funcs.items() if fi.cls is not None and fi.cls.name == clsname and q.count('.') == 1}
+    inits, stores, other = {}, {}, set()
+    for q, fi in methods.items():
+        for n in ast.walk(fi.node):
+            if isinstance(n, ast.Assign) and len(n.targets) == 1:
+                t = n.targets[0]
+                if isinstance(t, ast.Attribute) and U(t.value) == 'self':
+                    if (isinstance(n.value, ast.Dict) and not n.value.keys) or (isinstance(n.value, ast.Call) and U(n.value.func) == 'dict' and not n.value.args):
+                        inits.setdefault(t.attr, []).append((q, n))
+                    else:
+                        other.add(t.attr)
+                if isinstance(t, ast.Subscript) and isinstance(t.value, ast.Attribute) and U(t.value.value) == 'self':
+                    stores.setdefault(t.value.attr, []).append((q, n))
+            elif isinstance(n, (ast.AugAssign, ast.Delete)):
+                for x in ast.walk(n):
+                    if isinstance(x, ast.Attribute) and U(x.value) == 'self' and isinstance(getattr(x, 'ctx', None), (ast.Store, ast.Del)):
+                        other.add(x.attr)
+            elif isinstance(n, ast.Call) and isinstance(n.func, ast.Attribute) and isinstance(n.func.value, ast.Attribute) \
+                    and U(n.func.value.value) == 'self' and n.func.attr in ('update', 'pop', 'clear', 'setdefault', 'popitem'):
+                other.add(n.func.value.attr)
+    for T_, ini in inits.items():
+        if len(ini) != 1 or T_ in other or len(stores.get(T_, [])) != 1:
+            continue
+        q, st = stores[T_][0]
+        if q != ini[0][0]:
+            continue
+        fi = methods[q]
+        key = st.targets[0].slice
+        kelts = key.elts if isinstance(key, ast.Tuple) else [key]
+        if not all(isinstance(k, ast.Name) for k in kelts):
+            continue
+        keyvars = [k.id for k in kelts]
+        # the enclosing loop body: expand its single-definition locals into the value
+        loop = None
+        for lp in ast.walk(fi.node):
+            if isinstance(lp, ast.For) and st in lp.body:
+                loop = lp
+        if loop is None or not set(keyvars) <= set(target_names(loop.target)):
+            continue
+        value = expand(st.value, Defs(loop.body), comps=True)
+        comp_bound = {x.id for c in ast.walk(value) if isinstance(c, ast.comprehension) for x in ast.walk(c.target) if isinstance(x, ast.Name)}
+        free = {x.id for x in ast.walk(value) if isinstance(x, ast.Name)} - comp_bound - set(keyvars) - {'self', 'set', 'tuple', 'list', 'len', 'sorted', 'frozenset'}
+        if free:
+            continue             # depends on something the key does not name (e.g. the position in the loop)
+        out[T_] = (keyvars, value, fi.qualname)
+    _tables_cache[ck] = out
+    return out
 
 
 class Normaliser:
@@ -340,6 +402,19 @@ class Normaliser:
                 node.values = [self.visit(node.values[0])] + node.values[1:]
                 return node
 
+            def visit_Subscript(self, node):
+                self.generic_visit(node)
+                # a read of a table the class precomputes: self.T[K]  ->  the value stored under that key
+                if isinstance(node.ctx, ast.Load) and isinstance(node.value, ast.Attribute) and U(node.value.value) == 'self' \
+                        and me.fi.cls is not None:
+                    info = class_tables(me.repo, me.module, me.fi.cls.name).get(node.value.attr)
+                    if info is not None and info[2] != me.fi.qualname:
+                        keyvars, value, _ = info
+                        ks = node.slice.elts if isinstance(node.slice, ast.Tuple) else [node.slice]
+                        if len(ks) == len(keyvars):
+                            return ast.copy_location(Renamer({}, dict(zip(keyvars, ks))).visit(clone(value)), node)
+                return node
+
             def visit_Call(self, node):
                 self.generic_visit(node)
                 r = me.resolve(node, local_funcs, stack)
@@ -494,6 +569,14 @@ class Normaliser:
                 s.finalbody = self.block(s.finalbody, local_funcs, stack)
             elif isinstance(s, ast.With):
                 s.body = self.block(s.body, local_funcs, stack)
+            # a tuple display produced by the rewriting (e.g. a resolved table entry): bind component-wise
+            if isinstance(s, ast.Assign) and len(s.targets) == 1 and isinstance(s.targets[0], ast.Tuple) and isinstance(s.value, ast.Tuple) \
+                    and len(s.targets[0].elts) == len(s.value.elts) and all(isinstance(t, ast.Name) for t in s.targets[0].elts) \
+                    and not getattr(s, '_requeued', False):
+                s._requeued = True
+                out.extend(prefix)
+                stmts.insert(i, s)
+                continue
             # `a, b = helper(...)` whose inlined helper returned a tuple display: bind component-wise
             if isinstance(s, ast.Assign) and len(s.targets) == 1 and isinstance(s.targets[0], ast.Tuple) and \
                     isinstance(s.value, ast.Name) and prefix and isinstance(prefix[-1], ast.Assign) and \
